@@ -118,6 +118,42 @@ func (e *Enc) libModel(fr *Frame, full string, callee *ssa.Function, args []Val,
 		c := e.cellComp(pt.Elem())
 		e.set(cur.st, c, store(e.get(cur.st, c), r, args[0].T))
 		return Val{T: r, S: "Ref", Typ: resType}, true
+	case "sort.Slice", "sort.SliceStable":
+		// the slice's elements are permuted in place; the less function may be called any number of times
+		var cc *ssa.CallCommon
+		if c, ok := instr.(*ssa.Call); ok {
+			cc = &c.Call
+		}
+		if cc == nil || len(cc.Args) < 1 {
+			return Val{}, false
+		}
+		mi, ok := cc.Args[0].(*ssa.MakeInterface)
+		if !ok {
+			return Val{}, false
+		}
+		sl, ok := mi.X.Type().Underlying().(*types.Slice)
+		if !ok {
+			return Val{}, false
+		}
+		sv := e.val(fr, mi.X)
+		fr.callIdx["sort.Slice"]++
+		if e.forgotten(fr, "sort.Slice", "permutation") {
+			// the caller does not use the order or content of the sorted slice: arbitrary elements
+			c := e.sliceComp(sl.Elem())
+			old := e.get(cur.st, c)
+			na := e.fresh("sortarr")
+			e.declare(na, "(Array Int "+e.sortOf(sl.Elem())+")")
+			e.set(cur.st, c, ite(eq("(s_arr "+sv.T+")", "nil"), old, store(old, "(s_arr "+sv.T+")", na)))
+		} else {
+			e.permuteSlice(sv.T, sl.Elem(), cur)
+		}
+		e.externalClosureArgs(fr, full, e.closureArgsOf(fr, instr, args), cur)
+		e.countCall(cur, shortFuncName(callee), args)
+		return unit, true
+	case "sort.Strings":
+		e.permuteSlice(args[0].T, types.Typ[types.String], cur)
+		e.countCall(cur, shortFuncName(callee), args)
+		return unit, true
 	case "math/rand.Intn", "math/rand.Int63n", "math/rand.Int31n":
 		e.safety(fr, cur, "randn", pos, "(> "+args[0].T+" 0)", instr)
 		v := e.freshVal("rnd", types.Typ[types.Int], cur)
@@ -145,6 +181,34 @@ func (e *Enc) libModel(fr *Frame, full string, callee *ssa.Function, args []Val,
 		return Val{T: "(rmax " + args[0].T + " " + args[1].T + ")", S: "Real"}, true
 	}
 	return Val{}, false
+}
+
+// permuteSlice: the elements of slice s (in its window) are replaced by a permutation of
+// themselves; everything outside the window is unchanged.
+func (e *Enc) permuteSlice(s string, elem types.Type, cur *pathState) {
+	c := e.sliceComp(elem)
+	es := e.sortOf(elem)
+	old := e.get(cur.st, c)
+	na := e.fresh("permarr")
+	e.declare(na, "(Array Int "+es+")")
+	pf, pi := e.fresh("perm"), e.fresh("perminv")
+	e.hdrOnce(pf, fmt.Sprintf("(declare-fun %s (Int) Int)", pf))
+	e.hdrOnce(pi, fmt.Sprintf("(declare-fun %s (Int) Int)", pi))
+	oa := e.fresh("permold")
+	e.declare(oa, "(Array Int "+es+")")
+	e.assume(eq(oa, sel(old, "(s_arr "+s+")")))
+	lo := e.fresh("permoff")
+	e.declare(lo, "Int")
+	e.assume(eq(lo, "(s_off "+s+")"))
+	hi := "(+ " + lo + " (s_len " + s + "))"
+	ln := e.fresh("permlen")
+	e.declare(ln, "Int")
+	e.assume(eq(ln, "(s_len "+s+")"))
+	e.assume(fmt.Sprintf("(forall ((i Int)) (! (=> (or (< i %s) (>= i %s)) (= (select %s i) (select %s i))) :pattern ((select %s i))))", lo, hi, na, oa, na))
+	// relative indices through sidx, so that facts stated about s[j] are found by E-matching
+	e.assume(fmt.Sprintf("(forall ((i Int)) (! (=> (and (>= i 0) (< i %s)) (and (>= (%s i) 0) (< (%s i) %s) (= (%s (%s i)) i) (= (select %s (sidx %s i)) (select %s (sidx %s (%s i)))))) :pattern ((select %s (sidx %s i)))))", ln, pf, pf, ln, pi, pf, na, lo, oa, lo, pf, na, lo))
+	e.assume(fmt.Sprintf("(forall ((i Int)) (! (=> (and (>= i 0) (< i %s)) (and (>= (%s i) 0) (< (%s i) %s) (= (%s (%s i)) i) (= (select %s (sidx %s i)) (select %s (sidx %s (%s i)))))) :pattern ((select %s (sidx %s i)))))", ln, pi, pi, ln, pf, pi, oa, lo, na, lo, pi, oa, lo))
+	e.set(cur.st, c, ite(eq("(s_arr "+s+")", "nil"), old, store(old, "(s_arr "+s+")", na)))
 }
 
 // ifaceModel: methods of well-known external interfaces.
@@ -432,7 +496,7 @@ func (e *Enc) checkProtected(fr *Frame, cur *pathState, st types.Type, field int
 					}
 				}
 				a0 := e.get(fr.topEntry(), e.allocComp())
-				goal := or(sel(e.get(cur.st, e.heldComp()), mu), not(sel(a0, base)))
+				goal := or(sel(e.get(cur.st, e.heldComp()), mu), not(isAlloc(a0, base)))
 				e.addObl("held", fmt.Sprintf("%s%s.%s:access:%s", e.framePrefix(fr), m.Struct, m.Mutex, fname), cur.reach, goal, pos, "field "+fname+" is accessed only while holding "+m.Mutex)
 			}
 		}
